@@ -899,7 +899,7 @@ impl Check for C05 {
 		CheckInfo {
 			id: "C05",
 			level: "exploration",
-			rule: "1/16 of the cases: a gameplay task adds a clock, starts it and plays a sound scheduled on it while an audio task runs callbacks under seeded random schedules - the sound must start, not be cancelled; the others: stream ops (3/4 of the cases): seeded history over {add clock, start, pause, stop, set speed (immediate / delayed / on another clock's time, any easing and duration), drop clock, play a DC sound at a clock time, resume a sound at a clock time, callback of arbitrary size} at seeded internal buffer size and sample rate; stream sched (1/4): audio task (callbacks split into on_start_processing + process), reader task (ClockHandle::time() in a loop) under seeded random schedules at the yield points inside the shared clock state; non-trivial = a clock ticked or audio was rendered (ops) / at least one read overlapped a publication (sched); distinct = hash of per-callback (ticking clocks, fired events) (ops) / hash of the (task, site) yield trace (sched)",
+			rule: "1/16 of the cases: a gameplay task adds a clock, starts it and plays a sound scheduled on it while an audio task runs callbacks under seeded random schedules - the sound must start, not be cancelled - or (40% of these) stops a running clock with stop() against the callbacks: three undisturbed callbacks later it is not ticking and reads zero; the others: stream ops (3/4 of the cases): seeded history over {add clock, start, pause, stop, set speed (immediate / delayed / on another clock's time, any easing and duration), drop clock, play a DC sound at a clock time, resume a sound at a clock time, callback of arbitrary size} at seeded internal buffer size and sample rate; stream sched (1/4): audio task (callbacks split into on_start_processing + process), reader task (ClockHandle::time() in a loop) under seeded random schedules at the yield points inside the shared clock state; non-trivial = a clock ticked or audio was rendered (ops) / at least one read overlapped a publication (sched); distinct = hash of per-callback (ticking clocks, fired events) (ops) / hash of the (task, site) yield trace (sched)",
 			assumptions: vec![
 				"the reference clock replicates the documented accumulation (speed x dt once per internal chunk, clocks updated in creation order before the mixer) in f64; tolerance 1e-9 ticks".into(),
 				"a scheduled event may begin anywhere inside the internal buffer during which the reference clock reaches its time; a numerical tie window of 1e-7 ticks accepts the neighbouring buffer".into(),
